@@ -528,7 +528,7 @@ func (c *Ctx) rwHeaderTypestate(w *Wrapper) {
 				for _, it := range t.Items {
 					if strings.HasPrefix(it.Label, "emb:WriteHeader(") {
 						d := strings.TrimSuffix(strings.TrimPrefix(it.Label, "emb:WriteHeader("), ")")
-						if !strings.Contains(d, "fld:"+w.Key+".statusCode") && !strings.HasPrefix(d, "k:") {
+						if d != "fld:"+w.Key+".statusCode" && !strings.HasPrefix(d, "k:") {
 							c.Fail("deferred-status-delivered", w.Key+"."+name+"/status-value", p.InstrPos(it.Instr), "status sent to the client is not the recorded one: "+d)
 						}
 					}
